@@ -57,7 +57,7 @@ def run_demo(seed, prop, d):
         shutil.copy(os.path.join(seed, "demo_test.go"), tgt)
         mod = d + "/cmd/hranoprovod-cli" if rel.startswith("cmd/hranoprovod-cli") else d
         pkg = "./" + os.path.relpath(os.path.join(d, rel), mod)
-        rc, out = sh(f"go test -vet=off -count=1 -run 'Demo|Seeded|TestC[0-9][0-9]' {pkg}", cwd=mod)
+        rc, out = sh(f"go test -vet=off -count=1 -run 'Demo|Seeded|Seed|TestC[0-9][0-9]' {pkg}", cwd=mod)
         os.remove(tgt)
         return rc == 0, f"go test -run Demo {pkg} (demo_test.go in {rel})", out[-1200:]
     if os.path.exists(os.path.join(seed, "demo.sh")):
